@@ -218,6 +218,38 @@ fn main() {
                 wall
             );
         }
+        Some("minimize") => {
+            // vh minimize <replay.json>: structural minimisation of an e1/e2/e3 case file in place
+            let path = args.get(2).cloned().unwrap_or_default();
+            let text = std::fs::read_to_string(&path).unwrap_or_default();
+            let mut v: serde_json::Value = serde_json::from_str(&text).unwrap_or(serde_json::Value::Null);
+            let prop = v["property"].as_str().and_then(vh::registry::prop_of);
+            let case: Option<vh::ops::Case> = serde_json::from_value(v["case"].clone()).ok();
+            match (prop, case) {
+                (Some(p), Some(c)) => {
+                    let fails = |c: &vh::ops::Case| exec_case(c, p).violation.is_some();
+                    if !fails(&c) {
+                        println!("minimize: the case does not violate {} on this tree", p.id());
+                        std::process::exit(0);
+                    }
+                    let min = vh::runner::minimize(&c, &fails);
+                    let viol = exec_case(&min, p).violation;
+                    v["case"] = serde_json::to_value(&min).unwrap();
+                    if let Some(x) = viol {
+                        v["observed"] = serde_json::json!(x.msg);
+                        v["signature"] = serde_json::json!(x.sig);
+                        v["step"] = serde_json::json!(x.step);
+                        println!("  {}", x.msg);
+                    }
+                    let _ = std::fs::write(&path, serde_json::to_string_pretty(&v).unwrap());
+                    std::process::exit(1);
+                }
+                _ => {
+                    println!("minimize: cannot read {}", path);
+                    std::process::exit(2);
+                }
+            }
+        }
         Some("replay") => {
             let path = args.get(2).cloned().unwrap_or_default();
             match replay_file(&path) {
